@@ -5,6 +5,11 @@
 package stringy
 
 //@ func NanoSecondToHuman(v float64) string
-//@   props C18
-//@   modifies
+//@   props C18 C13
 //@   nochan
+//@   ensures[seconds] v > 1000000000 ==> result == r6LFix1(v / 1000000000, "s")
+//@   ensures[milliseconds] v > 1000000 && v <= 1000000000 ==> result == r6LFix1(v / 1000000, "ms")
+//@   ensures[microseconds] v > 1000 && v <= 1000000 ==> result == r6LFix1(v / 1000, "us")
+//@   ensures[nanoseconds] v <= 1000 ==> result == r6LFix1(v, "ns")
+//@   ensures[as-one-function] result == r6LHuman(v)
+//@   modifies
